@@ -145,3 +145,26 @@ Proof.
   - rewrite <- eval_is_spec. intros H Hev. rewrite H. destruct r; try reflexivity. subst. reflexivity.
   - intros H Hok. rewrite H. destruct r; try reflexivity. subst. reflexivity.
 Qed.
+
+(* ---- the value of a variable is a flat collection ---------------------------------------------------------------- *)
+Lemma splice_flat : forall v, forallb is_item (splice v) = true.
+Proof.
+  fix IH 1. intros [id| |l]; [reflexivity | reflexivity |].
+  cbn [splice]. induction l as [|x l IHl]; [reflexivity|].
+  rewrite forallb_app, IH, IHl. reflexivity.
+Qed.
+Lemma splice_item v : is_item v = true -> splice v = [v].
+Proof. destruct v; [reflexivity | reflexivity | discriminate]. Qed.
+Lemma splice_shallow l : forallb is_item l = true -> splice (KColl l) = l.
+Proof.
+  cbn [splice]. induction l as [|x l IHl]; [reflexivity|].
+  cbn [forallb]. intros H. apply andb_prop in H. destruct H as [Hx Hl].
+  rewrite (splice_item x Hx), IHl by exact Hl. reflexivity.
+Qed.
+Corollary variable_value_is_flat input os n items : eval_var input os n = RVal items -> forallb is_item items = true.
+Proof.
+  unfold eval_var. destruct (apply_options input os) as [e errs] eqn:Ha.
+  destruct errs; [|discriminate].
+  destruct (lookup e n) eqn:Hl; [|discriminate].
+  intros H. injection H as <-. apply splice_flat.
+Qed.
